@@ -297,8 +297,11 @@ def _cases(draw, tier="quick"):
         for c in cat_cols:
             test[c][r] = draw(st.sampled_from(UNSEEN))
 
-    def index(n):
-        kind = draw(st.sampled_from(["default", "ints", "strs"]))
+    def index(n, dups=False):
+        kind = draw(st.sampled_from(["default", "ints", "strs"] + (["dups", "dups"] if dups else [])))
+        if kind == "dups":
+            # repeated index labels (a bootstrap sample, two frames stacked without ignore_index): rows stay rows
+            return [draw(st.integers(0, max(0, n // 2))) for _ in range(n)]
         if kind == "default":
             return list(range(n))
         if kind == "ints":
@@ -310,7 +313,7 @@ def _cases(draw, tier="quick"):
         c = draw(st.sampled_from(cat_cols))
         vals = sorted(set(v for v in train[c] if not _is_missing(v)))
         remove = ["%s=%s" % (c, draw(st.sampled_from(vals)))]
-    return dict(cols=list(cols), cat_cols=cat_cols, train=train, test=test, train_index=index(ntr), test_index=index(nte),
+    return dict(cols=list(cols), cat_cols=cat_cols, train=train, test=test, train_index=index(ntr), test_index=index(nte, dups=True),
                 dtype=dtype, options=dict(columns=opt_cols, single=single, skip_errors=draw(st.booleans()), remove=remove))
 
 
